@@ -1242,6 +1242,60 @@ def translator_errors():
     return [m.strip() for m in re.findall(r"\(\* TRANSLATE-ERROR (.*?) \*\)", txt, flags=re.S)]
 
 
+def private_gen_check():
+    """Re-check the C16_gen_* obligations in a PRIVATE directory: translator output for THIS run's
+    source (VERIF_REPO), a copy of coq/rd/RdGenThm.v and of the C16_gen_* part of props/C16.v bound
+    to it.  coq/gen/ is shared with every concurrently running check (each regenerates it from its
+    own source tree), so the shared build can be overwritten between the build and compile_props;
+    this private compilation cannot.  -> dict(names, discharged, errors, log, expected_text)"""
+    import importlib.util
+    import re
+    import shutil
+    spec = importlib.util.spec_from_file_location("gen_rd_methods", os.path.join(C.VERIF, "harness", "gen_rd_methods.py"))
+    G = importlib.util.module_from_spec(spec)
+    spec.loader.exec_module(G)
+    try:
+        txt, errors = G.translate(open(os.path.join(C.SRC, "dateutil", "relativedelta.py")).read(),
+                                  open(os.path.join(C.SRC, "dateutil", "_common.py")).read())
+        terrs = ["%s: %s" % e for e in errors]
+    except Exception as ex:
+        txt, terrs = "(* TRANSLATE-ERROR source: %s *)\n" % ex, ["source: %s" % ex]
+    d = os.path.join(C.BUILD, "rdalg_gen_%d" % os.getpid())
+    shutil.rmtree(d, ignore_errors=True)
+    os.makedirs(os.path.join(d, "P"))
+    try:
+        open(os.path.join(d, "P", "RdMethodsGen.v"), "w").write(txt)
+        thm = open(os.path.join(C.COQ, "rd", "RdGenThm.v")).read()
+        if "gen.RdMethodsGen" not in thm:
+            return {"names": [], "discharged": 0, "errors": terrs, "log": "RdGenThm.v does not import gen.RdMethodsGen"}
+        thm = thm.replace(" gen.RdMethodsGen", "", 1).replace("Import ListNotations.",
+                                                              "From P Require Import RdMethodsGen.\nImport ListNotations.", 1)
+        open(os.path.join(d, "P", "RdGenThm.v"), "w").write(thm)
+        props = open(os.path.join(C.COQ, "props", "C16.v")).read()
+        marker = "From V Require Import rd.RdGenBase gen.RdMethodsGen rd.RdGenThm."
+        if marker not in props:
+            return {"names": [], "discharged": 0, "errors": terrs, "log": "marker line missing in props/C16.v"}
+        head = props[:props.index("Theorem C16_")]
+        head = re.sub(r"\(\*.*?\*\)", "", head, flags=re.S)
+        tail = props[props.index(marker) + len(marker):]
+        open(os.path.join(d, "P", "C16gen.v"), "w").write(
+            head + "\nFrom V Require Import rd.RdGenBase.\nFrom P Require Import RdMethodsGen RdGenThm.\n" + tail)
+        names = re.findall(r"^\s*Theorem\s+([A-Za-z0-9_']+)", re.sub(r"\(\*.*?\*\)", "", tail, flags=re.S), flags=re.M)
+        log = ""
+        rc = 0
+        for f in ("RdMethodsGen.v", "RdGenThm.v", "C16gen.v"):
+            rc, out = C.sh(["timeout", "900", "coqc", "-R", C.COQ, "V", "-R", os.path.join(d, "P"), "P",
+                            os.path.join(d, "P", f)], cwd=d)
+            log += out
+            if rc != 0:
+                break
+        n = len(re.findall(r"(?m)^(Closed under the global context|Axioms:)", log))
+        return {"names": names, "discharged": n if rc != 0 or n <= len(names) else len(names), "errors": terrs,
+                "log": log, "ok": rc == 0 and n == len(names)}
+    finally:
+        shutil.rmtree(d, ignore_errors=True)
+
+
 def load_corpus():
     path = os.path.join(C.VERIF, "corpus", "regressions", CID + ".jsonl")
     out = []
@@ -1300,6 +1354,24 @@ def main():
                  "cmd": "coqc props/C16.v", "log": build_err.log, "ok": False}
     else:
         props = C.compile_props(CID)
+    # the regenerated file is shared state: when this run reads another source tree than /repo (or the
+    # shared file is not what this run's source translates to), settle the C16_gen_* obligations privately
+    priv_gen = None
+    try:
+        shared = open(os.path.join(C.COQ, "gen", "RdMethodsGen.v")).read()
+    except OSError:
+        shared = None
+    if build_err is None and (os.path.realpath(C.REPO) != "/repo" or shared is None or not props["ok"]
+                              or "TRANSLATE-ERROR" in shared):
+        priv_gen = private_gen_check()
+        gen_names = [n for n in props["theorems"] if n.startswith("C16_gen_")]
+        base_names = [n for n in props["theorems"] if not n.startswith("C16_gen_")]
+        base_ok = props["discharged"] >= len(base_names)
+        if base_ok and priv_gen["names"] == gen_names:
+            props["discharged"] = len(base_names) + priv_gen["discharged"]
+            props["ok"] = bool(priv_gen.get("ok"))
+            props["log"] = props["log"][-1500:] + "\n--- private re-check of the C16_gen_* obligations ---\n" + priv_gen["log"][-2500:]
+            terrs_early = priv_gen["errors"]
     have_oracle = os.path.exists(os.path.join(C.BIN, "oracle_" + AREA))
     totals = {}
     allviol = []
@@ -1405,9 +1477,11 @@ def main():
         "regenerated_from_source": {
             "file": "coq/gen/RdMethodsGen.v (harness/gen_rd_methods.py, every run)",
             "methods": "_sign, _fix, _set_months, __neg__, __abs__, __bool__/__nonzero__, __eq__, __hash__, "
-                       "__add__/__sub__ (relativedelta operand), __mul__/__rmul__ (integer factor), "
+                       "__ne__, __add__/__sub__ (relativedelta operand), __add__ (timedelta operand), __mul__/__rmul__ "
+                       "(integer factor), shape of __init__'s keyword path, "
                        "_common.weekday.__eq__/__hash__",
             "translator_errors": terrs,
+            "settled_in_private_directory": priv_gen is not None,
             "gen_obligations": [n for n in props["theorems"] if n.startswith("C16_gen_")],
             "gen_obligations_discharged": [n for n in props["theorems"][:props["discharged"]]
                                            if n.startswith("C16_gen_")]},
